@@ -53,7 +53,7 @@ theorem next_PS (c : Ctx) (h : PS c) : OutcomeP PS (opNext c) := by
       simp only [setMap_seg, setIs_seg, markHighpassed_seg, setMap_is, setIs_is]
       have hio := hj.isok
       rw [heq] at hio
-      rcases hio with h0 | ⟨i', h1, h2⟩ | ⟨d, h1, h2, h3, h4, h5⟩
+      rcases hio with h0 | ⟨i', h1, h2⟩ | ⟨d, h1, h2, h3, h4, h5, h6⟩
       · cases h0
       · cases h1; exact next_in hj.linked h2
       · cases h1
@@ -75,7 +75,7 @@ theorem delete_PS (c : Ctx) (h : PS c) : OutcomeP PS (opDelete c) := by
       have hil : i ∈ l := by
         have hio := hj.isok
         rw [heq] at hio
-        rcases hio with h0 | ⟨i', h1, h2⟩ | ⟨d, h1, h2, h3, h4, h5⟩
+        rcases hio with h0 | ⟨i', h1, h2⟩ | ⟨d, h1, h2, h3, h4, h5, h6⟩
         · cases h0
         · cases h1; exact h2
         · cases h1; exact absurd h3 hdel
@@ -138,10 +138,11 @@ theorem delete_PS (c : Ctx) (h : PS c) : OutcomeP PS (opDelete c) := by
         · subst ha
           simp only [List.getLast?_nil, List.nil_append]
           rw [heq]
-          refine .inr (.inr ⟨i, rfl, hib, ?_, ?_, ?_⟩)
+          refine .inr (.inr ⟨i, rfl, hib, ?_, ?_, ?_, ?_⟩)
           · simp only [addGlyphs_get]; rw [(ssd.slot i).2.2.1, gi]; rfl
           · simp only [addGlyphs_get]; rw [(ssd.slot i).1, gi]; simpa using hmid.2.1
           · simp only [addGlyphs_get]; rw [(ssd.slot i).2.1, gi]; simpa using hmid.1
+          · simp only [addGlyphs_get]; rw [(ssd.slot i).2.2.2, gi]; simpa using (hj.clean.live i hil).2
         · rw [List.concat_eq_append] at ha
           subst ha
           rw [getLast?_concat']
@@ -167,7 +168,7 @@ theorem delete_PS (c : Ctx) (h : PS c) : OutcomeP PS (opDelete c) := by
 deleted former first slot, or at the end -/
 theorem skip_split {s : Seg} {l : List Nat} {is : Option Nat} (hc : Clean s l) (hi : IsOK s l is) (fuel : Nat) :
     ∃ a b, l = a ++ b ∧ skipDeleted s (fuel + 2) is = b.head? := by
-  rcases hi with h0 | ⟨i, h1, h2⟩ | ⟨d, h1, h2, h3, h4, h5⟩
+  rcases hi with h0 | ⟨i, h1, h2⟩ | ⟨d, h1, h2, h3, h4, h5, h6⟩
   · subst h0
     exact ⟨l, [], by simp, by simp [skipDeleted]⟩
   · subst h1
